@@ -513,6 +513,51 @@ func C03(r *core.Run) {
 	})
 	deaths = append(deaths, d7...)
 	envOuts = append(envOuts, cmdOuts...)
+	// the directory the process is started in (holding files named like the ones the tree refers to) is not an input
+	cwdOuts, d8 := core.Parallel(r, "cwd", fpIn{Dir: dir}, 1, func(in fpIn, shard, n int, emit func(envOut)) {
+		wd := filepath.Join(in.Dir, "cwd")
+		var out envOut
+		for _, withConfig := range []bool{false, true} {
+			os.RemoveAll(wd)
+			t := core.Tree{}
+			for k, c := range c03Tree() {
+				if withConfig || !strings.HasSuffix(k, "toolchain.yaml") {
+					t["crs/"+k] = c
+				}
+			}
+			t["crs/regex-assembly/123456.ra"] = "##!> cmdline unix\ncurl@\nls -l\n##!<\n##!> include inc\n##!> include-except dup ex\n"
+			t["crs/rules/REQUEST-123-TEST.conf"] = rulesFile(ruleSpec{ID: "123456", Regex: "OLD"})
+			// decoys in other directories: a configuration file, include files, a directory named like an include file
+			decoyCfg := "patterns:\n  anti_evasion:\n    unix: 'DECOY*'\n  anti_evasion_suffix:\n    unix: 'DECOYSUFFIX'\n"
+			t["elsewhere/toolchain.yaml"] = decoyCfg
+			t["elsewhere/inc.ra"] = "decoyinclude\n"
+			t["elsewhere/dup.ra/"] = ""
+			t["elsewhere/ex.ra"] = "alpha\n"
+			t["elsewhere/regex-assembly.bak/toolchain.yaml"] = decoyCfg
+			t["elsewhere/include/inc.ra"] = "decoyinclude2\n"
+			t["elsewhere/123456.ra"] = "decoyrule\n"
+			t.Materialise(wd)
+			root := filepath.Join(wd, "crs")
+			for _, cmd := range [][]string{{"regex", "generate", "123456"}, {"regex", "compare", "123456"}, {"regex", "update", "123456"}, {"regex", "format", "--check", "123456"}} {
+				var first string
+				for ci, cwd := range []string{wd, filepath.Join(wd, "elsewhere"), "/", root, filepath.Join(root, "regex-assembly/include")} {
+					os.WriteFile(filepath.Join(root, "rules/REQUEST-123-TEST.conf"), []byte(rulesFile(ruleSpec{ID: "123456", Regex: "OLD"})), 0o644)
+					res := core.RunCLI(r.Crs, cwd, "", nil, append([]string{"-d", root}, cmd...)...)
+					out.Runs++
+					conf, _ := os.ReadFile(filepath.Join(root, "rules/REQUEST-123-TEST.conf"))
+					obs := fmt.Sprint(res.Exit, "\x00", res.Stdout, "\x00", string(conf))
+					if ci == 0 {
+						first = obs
+					} else if obs != first {
+						out.Bad = append(out.Bad, fmt.Sprintf("`%s` on a tree %s configuration file gives a different result when started in %s than in the parent of the root: %q vs %q", strings.Join(cmd, " "), map[bool]string{true: "with a", false: "without"}[withConfig], strings.TrimPrefix(cwd, wd), tailStr(obs, 140), tailStr(first, 140)))
+					}
+				}
+			}
+		}
+		emit(out)
+	})
+	deaths = append(deaths, d8...)
+	envOuts = append(envOuts, cwdOuts...)
 	// the way standard input arrives (one write, several writes with pauses, more than a pipe buffer holds) is
 	// part of "any process": `generate -` must print what `generate FILE` prints for the same bytes
 	stdinOuts, d5 := core.Parallel(r, "stdin", fpIn{Dir: dir, Texts: menu}, r.Workers, func(in fpIn, shard, n int, emit func(envOut)) {
